@@ -195,7 +195,8 @@ func ruleHeaderRefusals(c *core.Ctx) {
 		// private steps is handed on — it may be nil
 		if len(r.Results) == 1 {
 			if cr, _ := core.CallResult(core.RetVal(r, 0)); cr != nil {
-				if g := cr.Call.StaticCallee(); g != nil && inRepo(g) && isPrivateHelper(c, g) {
+				if g := cr.Call.StaticCallee(); g != nil && inRepo(g) && isPrivateHelper(c, g) && streamParam(g, "Read") != nil {
+					// (a step is handed the stream; an error-wrapping helper is not)
 					// … unless this is the branch where that outcome was found to be an error
 					the := ssa.Value(cr)
 					isIt := func(v ssa.Value) bool { return core.Canon(v) == the }
